@@ -212,3 +212,44 @@ pub open spec fn fresh_line(l: SpanLine, epoch: usize, token: Option<Vec<Collect
     &&& l.span_queue.capacity == DEFAULT_SPAN_QUEUE_SIZE
     &&& l.span_queue.next_parent_id is None
 }
+
+// ------------------------------------------------------------ SpanContext::current_local_parent
+// R19: the thread-local handle.  `LOCAL_SPAN_STACK.try_with(Rc::clone).ok()?` yields the thread's
+// stack cell (or None during TLS teardown) and `.borrow_mut()` the stack inside it; here the cell
+// is an opaque value holding an arbitrary well-formed stack and borrow_mut() hands that stack out
+// by value (the function only reads it).  TRUSTED: Rc/RefCell/thread_local are not modelled.
+#[verifier::external_body]
+pub struct TlsStackCell { _p: core::marker::PhantomData<LocalSpanStack> }
+
+impl TlsStackCell {
+    pub uninterp spec fn stack(&self) -> LocalSpanStack;
+
+    #[verifier::external_body]
+    pub fn borrow_mut(&self) -> (r: LocalSpanStack)
+        ensures r == self.stack(),
+    { unimplemented!() }
+}
+
+pub uninterp spec fn tls_stack_cell() -> Option<TlsStackCell>;
+
+#[verifier::external_body]
+pub fn verif_tls_stack() -> (r: Option<TlsStackCell>)
+    ensures r == tls_stack_cell(), r is Some ==> r->Some_0.stack().wf(),
+{ unimplemented!() }
+
+// C11: the context current_local_parent() must return for a given thread-local stack
+pub open spec fn ctx_of_stack(st: LocalSpanStack) -> Option<SpanContext> {
+    if st.lines().len() == 0 { None } else {
+        let l = st.lines().last();
+        match l.collect_token {
+            None => None,
+            Some(t) => if t@.len() == 0 { None } else {
+                Some(SpanContext {
+                    trace_id: t@[0].trace_id,
+                    span_id: match l.span_queue.next_parent_id { Some(id) => id, None => t@[0].parent_id },
+                    sampled: t@[0].is_sampled,
+                })
+            },
+        }
+    }
+}
